@@ -27,8 +27,17 @@ import (
 	"symgo/vm"
 )
 
+// repoDir is /repo. VERIF_REPO_OVERRIDE points the check at a scratch copy of the tree; it
+// is used only by tools/detect_all.sh to try seeded changes without touching /repo and is
+// never set by a registered command.
+var repoDir = func() string {
+	if d := os.Getenv("VERIF_REPO_OVERRIDE"); d != "" {
+		return d
+	}
+	return "/repo"
+}()
+
 const (
-	repoDir   = "/repo"
 	verifDir  = "/verif"
 	modPath   = "github.com/bufbuild/protocompile"
 	apiRel    = "internal/zzverif"
